@@ -19,3 +19,11 @@ def _(p):
         return None
     explain = getattr(mod, "explain", None)
     return f"{p['function']}: " + (explain(p["function"], call) if explain else f"property fails for {call}")
+
+
+@replay("c14_string")
+def _(p):
+    from harness import ch_c14
+
+    c = ch_c14.classify(p["s"])
+    return f"{c}: formula {p['s']!r}" if c.startswith("escape") else None
